@@ -377,11 +377,27 @@ func runTool(path string, stdin []byte, args ...string) (string, error) {
 	cmd.Stdin = bytes.NewReader(stdin)
 	var o, e bytes.Buffer
 	cmd.Stdout, cmd.Stderr = &o, &e
-	cmd.Env = append(os.Environ(), "LC_ALL=C", "TZ=UTC")
+	cmd.Env = append(os.Environ(), "LC_ALL=C", "TZ=UTC", "GNUPGHOME="+gnupgHome())
 	if err := cmd.Run(); err != nil {
 		return o.String(), fmt.Errorf("%v: %s", err, strings.TrimSpace(e.String()))
 	}
 	return o.String(), nil
+}
+
+// gnupgHome gives gpgv a private, pre-created home directory (several workers
+// creating ~/.gnupg at the same time make gpgv fail sporadically).
+var gnupgHomeDir string
+
+func gnupgHome() string {
+	if gnupgHomeDir == "" {
+		d, err := os.MkdirTemp("", "verif-gnupg-")
+		if err != nil {
+			return os.TempDir()
+		}
+		os.Chmod(d, 0o700)
+		gnupgHomeDir = d
+	}
+	return gnupgHomeDir
 }
 
 func tmpFile(env *engine.Env, name string, data []byte) (string, func()) {
